@@ -333,6 +333,7 @@ def c19(tier):
     na, nt = sm.sm1(P, C)
     sm.sm2(P, C)
     sm.sm3(P, C)
+    sm.sm4(P, C)
     n = sm.ts3a(P, C)
     C.extra["reader_allocation_sites"] = na
     C.extra["model_terms"] = nt
